@@ -1,11 +1,77 @@
 ------------------------- MODULE Known_DurableFile -------------------------
 (* Named deviation actions for the recorded known findings of property C19         *)
-(* (see /verif/known_findings.json).  Guard = subject family / variant + image     *)
-(* kind + outcome; a deviation replaces the contract action only in KF mode.       *)
+(* (see /verif/known_findings.json).  Guard = subject family + image kind +        *)
+(* outcome (+ what the reopened object claims); every guard also requires that the *)
+(* strict contract rejects the event, so a deviation never fires on a conforming   *)
+(* reopen.  A deviation replaces the contract action only in KF mode.              *)
 EXTENDS DurableFile, TLC
 
-KnownIds == {}
+KnownIds == {"C19-KF1", "C19-KF2", "C19-KF3", "C19-KF4", "C19-KF5", "C19-KF6"}
 
-DevApplies(id, e, subj) == FALSE
-KnownDeviation(id, e, subj) == FALSE
+MixKinds == {"mixture", "rollback", "hdr_new_data_old", "data_new_hdr_old"}
+Damaged == MixKinds \cup {"truncate"}
+
+IsReopen(e) == e.op = "reopen" /\ img /= NoImg
+Rejected(e) == ~ReopenOK(e.outcome, e.content, e.extent)
+(* the reopened object claims more bytes (header + capacity) than the image holds *)
+ClaimsBeyond(e) == e.claim /= <<>> /\ e.claim[1] > img.len
+
+Accept == img' = NoImg /\ UNCHANGED sp
+
+(* C19-KF1: MmapVec::open validates magic / version / element size / len <= capacity but  *)
+(* never compares the capacity with the file length: a file cut short (or a header that   *)
+(* got ahead of the file) opens, and reads return bytes that are not in the file (zeros   *)
+(* of the private buffer, or memory beyond it: SIGSEGV).                                  *)
+G1(e, subj) == /\ subj.fam = "mmapvec" /\ IsReopen(e) /\ img.kind \in Damaged
+               /\ \/ e.outcome = "ok" /\ ClaimsBeyond(e) /\ Rejected(e)
+                  \/ e.outcome = "signal" /\ img.len < img.flen
+KF1(e, subj) == G1(e, subj) /\ Accept
+
+(* C19-KF2: MmapVec::sync rewrites the whole file in place (std::fs::write) and the       *)
+(* format has no checksum: a torn rewrite whose length matches the header is accepted     *)
+(* with a content that was never synced.                                                  *)
+G2(e, subj) == /\ subj.fam = "mmapvec" /\ IsReopen(e) /\ img.kind \in MixKinds
+               /\ e.outcome = "ok" /\ ~ClaimsBeyond(e) /\ Rejected(e)
+KF2(e, subj) == G2(e, subj) /\ Accept
+
+(* C19-KF3: PlainBlobStore records are bare files (no length, no checksum) that put()     *)
+(* creates and fills under their final name: a record cut short or torn is served as is.  *)
+G3(e, subj) == /\ subj.fam = "plain" /\ IsReopen(e) /\ img.kind \in Damaged
+               /\ e.outcome = "ok" /\ Rejected(e)
+KF3(e, subj) == G3(e, subj) /\ Accept
+
+(* C19-KF4: ZReorderMap::open accepts a file that ends before its declared element count  *)
+(* (cut short, or the output of a builder that never finished); iteration silently stops  *)
+(* early (Iterator::next swallows the read error) while size() reports the full count.    *)
+G4(e, subj) == /\ subj.fam = "reorder" /\ IsReopen(e)
+               /\ (img.kind = "truncate" \/ (img.kind = "intact" /\ ~sp[img.k].valid))
+               /\ e.outcome = "ok" /\ Rejected(e)
+KF4(e, subj) == G4(e, subj) /\ Accept
+
+(* C19-KF5: ZReorderMapBuilder rewrites an existing file in place (O_TRUNC, no temporary  *)
+(* file) and the format has no checksum: a torn rewrite is accepted.                      *)
+G5(e, subj) == /\ subj.fam = "reorder" /\ IsReopen(e) /\ img.kind \in MixKinds
+               /\ e.outcome = "ok" /\ Rejected(e)
+KF5(e, subj) == G5(e, subj) /\ Accept
+
+(* C19-KF6: SuffixArrayDictionary::save_to_file rewrites the dictionary file in place and *)
+(* the bincode image has no checksum: a torn rewrite loads with a text never saved.       *)
+G6(e, subj) == /\ subj.fam = "dzdict" /\ IsReopen(e) /\ img.kind \in MixKinds
+               /\ e.outcome = "ok" /\ Rejected(e)
+KF6(e, subj) == G6(e, subj) /\ Accept
+
+DevApplies(id, e, subj) ==
+    \/ id = "C19-KF1" /\ G1(e, subj)
+    \/ id = "C19-KF2" /\ G2(e, subj)
+    \/ id = "C19-KF3" /\ G3(e, subj)
+    \/ id = "C19-KF4" /\ G4(e, subj)
+    \/ id = "C19-KF5" /\ G5(e, subj)
+    \/ id = "C19-KF6" /\ G6(e, subj)
+KnownDeviation(id, e, subj) ==
+    \/ id = "C19-KF1" /\ KF1(e, subj)
+    \/ id = "C19-KF2" /\ KF2(e, subj)
+    \/ id = "C19-KF3" /\ KF3(e, subj)
+    \/ id = "C19-KF4" /\ KF4(e, subj)
+    \/ id = "C19-KF5" /\ KF5(e, subj)
+    \/ id = "C19-KF6" /\ KF6(e, subj)
 =============================================================================
